@@ -77,7 +77,19 @@ OpaqueWhys(e) ==
            THEN "prop:a-choice-among-a-non-power-of-two-number-of-alternatives-is-made-from-a-raw-word-without-rejection" ELSE "ok",
          "shape:random-source-read-without-an-announced-bounded-draw">>
 
+\* count-only sweep (bounds too large for a per-result histogram): all 2^32 words presented; a necessary condition of
+\* uniformity: the accepted words must split evenly over the n results, so their number is a multiple of n
+SweepCountWhys(e) ==
+  IF ~WitnessOK(e) THEN <<"harness:bad-witness">>
+  ELSE IF Add(Mul(e.qa, e.n), e.ra) # e.accepted \/ ~Lt(e.ra, e.n) THEN <<"harness:bad-count-witness">>
+  ELSE <<IF Add(e.accepted, e.rejected) # MM THEN "harness:sweep-incomplete" ELSE "ok",
+         IF e.outOfRange # <<>> THEN "prop:result-out-of-range" ELSE "ok",
+         IF e.ra # <<>> THEN "prop:accepted-raw-values-cannot-split-evenly-over-the-alternatives" ELSE "ok",
+         IF ~Lt(MM, Add(e.accepted, e.accepted)) THEN "prop:not-more-than-half-accepted" ELSE "ok",
+         IF e.accepted # Thr(e) THEN "shape:accepted-count-differs-from-threshold" ELSE "ok">>
+
 Whys(e) ==
+  IF e.op = "sweepcount" THEN SweepCountWhys(e) ELSE
   IF e.op = "opaque" THEN OpaqueWhys(e) ELSE
   IF e.op = "draw" THEN <<DrawPropWhy(e), DrawContWhy(e), DrawShapeWhy(e)>>
   ELSE IF e.op = "draw0" THEN
